@@ -308,6 +308,7 @@ def run(ctx):
     check_reinit(ctx, pool, 'R5')
     check_enqueue_callers(ctx, pool, run_f, cl)
     check_redistribution(ctx, cl, 'R1')
+    check_enqueue_verdict(ctx, pool, cl, N, 'R1')
 
     # ---------------------------------------------------------------- R5 verdict, loop condition, guard reset
     oks = [st for st in walk_local(run_f.node) if isinstance(st, ast.Assign) and is_name(st.targets[0], N['ok'])]
@@ -351,6 +352,38 @@ def run(ctx):
                                       and st.value.elts[1].value is False for st in ast.walk(h))
         ctx.check('R6', 'EOF is turned into an artificial closing message', synth, 'Pool.run', 'no-artificial-closing-message',
                   'a bare EOF of a result pipe is not turned into a closing message: the death of that worker is never handled', where=loc(run_f, recv_try))
+
+
+def check_enqueue_verdict(ctx, pool, cl, N, rule):
+    """try_enqueue tells its caller whether the sources still had data: first_enqueue stops priming the other workers on a false answer.  So False is
+    returned only where no input was available (the has-data flag is false), and every return on the has-data side is True - a death found while
+    enqueueing is not the end of the input."""
+    te = cl['try_enqueue']
+    g = ctx.an.cfg(te, pool)
+    dom = g.dominators(edge_ok=is_flow)
+    has_true = {e.dst.id for n in g.nodes if n.kind == 'test' for e in n.succ if edge_fact(e) == (N['has_data'], True)}
+    has_false = {e.dst.id for n in g.nodes if n.kind == 'test' for e in n.succ if edge_fact(e) == (N['has_data'], False)}
+    n = 0
+    for r in g.nodes:
+        if r.kind != 'return' or r.part not in (None, 'eval'):
+            continue
+        v = r.stmt.value
+        d = dom.get(r.id, set())
+        n += 1
+        if d & has_true:
+            ok = isinstance(v, ast.Constant) and v.value is True
+            ctx.check(rule, f'try_enqueue: the return at line {r.line} (an input was available) answers True', ok, 'Pool.run.<try_enqueue>', f'enqueue-verdict:has-data->{norm(v)}',
+                      f'try_enqueue returns `{norm(v)}` on a path where an input had been taken: first_enqueue reads it as "the sources are depleted" and stops handing work to the other '
+                      'workers - with nothing pending the run ends at once in PoolError("all workers have died") although live workers were never given anything', where=loc(te, r.stmt))
+        elif d & has_false:
+            ok = isinstance(v, ast.Constant) and v.value is False
+            ctx.check(rule, f'try_enqueue: the return at line {r.line} (no input left) answers False', ok, 'Pool.run.<try_enqueue>', f'enqueue-verdict:no-data->{norm(v)}',
+                      f'try_enqueue returns `{norm(v)}` although the sources had nothing left: first_enqueue keeps priming with no data', where=loc(te, r.stmt))
+    ctx.floor('returns of try_enqueue', n, 4)
+    # the consumer: first_enqueue stops on a false answer
+    fe = cl['first_enqueue']
+    uses = [st for st in walk_local(fe.node) if isinstance(st, ast.Assign) and isinstance(st.value, ast.Call) and isinstance(st.value.func, ast.Name) and st.value.func.id == cl.n('try_enqueue')]
+    ctx.ob(rule, f'first_enqueue reads the verdict of try_enqueue ({len(uses)} site)', bool(uses))
 
 
 def check_redistribution(ctx, cl, rule):
